@@ -54,7 +54,7 @@ def make_lit(kind, k):
 @st.composite
 def general(draw, max_classes=4, max_nodes=7, max_props=4, max_stmts=30, bnodes=True, lit_kinds=None,
             inst_props=(RDF_TYPE,), bnode_classes=False, class_typing=False, min_stmts=1, untyped=True,
-            single_ns=False, self_links=True):
+            single_ns=False, self_links=True, iri_like_literals=False):
     """General graphs: 1..max_classes classes, nodes that are IRIs or blank nodes with 0..n classes,
     1..max_props properties; values: literals of several kinds, untyped IRIs / bnodes, typed nodes, the node
     itself.  The statement list is duplicate-free and its order is the document order."""
@@ -82,6 +82,10 @@ def general(draw, max_classes=4, max_nodes=7, max_props=4, max_stmts=30, bnodes=
             vals.append(st.tuples(st.just("ubnode"), st.integers(0, 1)))
     vals.append(st.tuples(st.sampled_from(lit_kinds), st.integers(0, 3)))
     vals.append(st.tuples(st.sampled_from(lit_kinds[:2] if len(lit_kinds) > 1 else lit_kinds), st.integers(0, 3)))
+    if class_typing:
+        vals.append(st.tuples(st.just("cls"), st.integers(0, n_classes - 1)))     # a class IRI as an ordinary value
+    if iri_like_literals:
+        vals.append(st.tuples(st.just("irilit"), node_ix))                        # a literal whose text is a node's IRI
     value = st.one_of(*vals)
     type_stmt = st.tuples(st.just("t"), node_ix, st.integers(0, n_classes - 1))
     prop_stmt = st.tuples(st.just("p"), node_ix, st.integers(0, len(props) - 1), value)
@@ -111,6 +115,10 @@ def general(draw, max_classes=4, max_nodes=7, max_props=4, max_stmts=30, bnodes=
                 o = ["iri", untyped_iri(k)]
             elif vk == "ubnode":
                 o = ["bnode", "_:u%d" % k]
+            elif vk == "cls":
+                o = classes[k]
+            elif vk == "irilit":
+                o = ["lit", nodes[k][1], XSD_STRING, ""]
             else:
                 o = make_lit(vk, k)
             tr = [nodes[ni], props[pi], o]
@@ -163,6 +171,12 @@ def consistent(draw, max_classes=3, max_inst=4, max_props=3, bnode_classes=False
         classes.append(["bnode", "_:c%d" % j] if (bnode_classes and j == n_classes - 1 and draw(st.booleans())) else ["iri", class_iri(j)])
     untyped_i = [["iri", untyped_iri(i)] for i in range(3)]
     untyped_b = [["bnode", "_:u%d" % i] for i in range(3)]
+    # a multi-typed instance (member of classes 0 and 1); such classes are then never used as a range, so that the
+    # neighbours of every (class, property) stay instances of ONE single-typed class (strict domain of C03)
+    shared = n_classes >= 2 and draw(st.integers(0, 2)) == 0
+    if shared:
+        inst[1] = inst[1] + [inst[0][0]]
+    no_range = {0, 1} if shared else set()
     triples = []
     for j in range(n_classes):
         for n in inst[j]:
@@ -181,7 +195,10 @@ def consistent(draw, max_classes=3, max_inst=4, max_props=3, bnode_classes=False
             elif rk == "ubnode":
                 rng = untyped_b
             elif rk == "class":
-                rng = inst[draw(st.integers(0, n_classes - 1))]
+                cand = [c for c in range(n_classes) if c not in no_range]
+                # classes with a multi-typed member do not link to typed nodes either: seen from the target, the sources
+                # of the incoming links would not be instances of one single-typed class
+                rng = inst[draw(st.sampled_from(cand))] if (cand and j not in no_range) else untyped_i
             for n in inst[j]:
                 for dt in lits:
                     cnt = draw(st.sampled_from([0, 0, 1, 1, 2, 3]))
@@ -193,6 +210,19 @@ def consistent(draw, max_classes=3, max_inst=4, max_props=3, bnode_classes=False
                         start = draw(st.integers(0, len(rng) - 1))
                         for x in range(cnt):
                             triples.append([n, p, rng[(start + x) % len(rng)]])
+    # incoming links from untyped nodes (homogeneous per predicate: all IRI or all blank-node sources)
+    for j in range(n_classes):
+        for _ in range(draw(st.integers(0, 2))):
+            q = prop_iri(pid) + "in"
+            pid += 1
+            src = untyped_i if draw(st.booleans()) else untyped_b
+            for n in inst[j]:
+                cnt = draw(st.sampled_from([0, 1, 1, 2, 3]))
+                start = draw(st.integers(0, len(src) - 1))
+                for x in range(min(cnt, len(src))):
+                    tr = [src[(start + x) % len(src)], q, n]
+                    if tr not in triples:
+                        triples.append(tr)
     perm = draw(st.permutations(range(len(triples))))
     triples = [triples[i] for i in perm]
     return {"triples": triples, "classes": [c[1] for c in classes], "inst_prop": RDF_TYPE,
